@@ -14,8 +14,18 @@ use digital_test_runner as dtr;
 use serde_json::json;
 use std::time::Instant;
 
-fn sigs() -> Vec<Sig> {
-    vec![Sig::inp("A", 8, 0), Sig::out("Q", 8), Sig::out("i", 8)]
+/// two configurations: ASCII names, and names with multi-byte characters
+fn sigs(cfg: usize) -> Vec<Sig> {
+    let (a, q) = names(cfg);
+    vec![Sig::inp(a, 8, 0), Sig::out(q, 8), Sig::out("i", 8)]
+}
+
+fn names(cfg: usize) -> (&'static str, &'static str) {
+    if cfg == 0 {
+        ("A", "Q")
+    } else {
+        ("Zähler", "Ü€")
+    }
 }
 
 fn space(k: usize) -> ForestSpace {
@@ -32,6 +42,19 @@ fn space(k: usize) -> ForestSpace {
     ];
     let blocks = vec![Block::Loop("i".into(), lit(2)), Block::Loop("j".into(), lit(1)), Block::While(lit(0))];
     ForestSpace::new(atoms, blocks, 3, k)
+}
+
+/// the declaration reads the output; a name with non-ASCII characters cannot be written in an
+/// expression, there the declaration is a constant
+fn rename(body: &[Stmt], q: &str) -> Vec<Stmt> {
+    body.iter()
+        .map(|s| match s {
+            Stmt::Declare(n, _) => Stmt::Declare(n.clone(), if q.is_ascii() { name(q) } else { lit(1) }),
+            Stmt::Loop(v, e, b) => Stmt::Loop(v.clone(), e.clone(), rename(b, q)),
+            Stmt::While(e, b) => Stmt::While(e.clone(), rename(b, q)),
+            other => other.clone(),
+        })
+        .collect()
 }
 
 pub fn singles(nlines: usize) -> Vec<Dev> {
@@ -55,19 +78,25 @@ pub fn singles(nlines: usize) -> Vec<Dev> {
 pub fn run(tier: Tier, seed: u64) -> i32 {
     let started = Instant::now();
     let deadline = Deadline::new(tier.wall_cap());
-    let sigs = sigs();
-    let answer: Answer = vec![("Q".into(), V::Num(3)), ("i".into(), V::Num(202))];
-    let script = vec![Step::Ans(answer)];
     let maxk = tier.pick(3, 4);
     let maxdev = 2;
     let mut total = Stats::default();
+    for cfg in 0..2 {
+    let sigs = sigs(cfg);
+    let (na, nq) = names(cfg);
+    let answer: Answer = vec![(nq.into(), V::Num(3)), ("i".into(), V::Num(202))];
+    let script = vec![Step::Ans(answer)];
     for k in 1..=maxk {
+        if cfg == 1 && k == 4 {
+            continue;
+        }
         let sp = space(k);
         let n = sp.count(k);
         let label = format!("programs with {k} statements (8 atomic statements, 3 block headers, nesting <= 3) x all layouts with <= {maxdev} deviations (blank/whitespace/comment lines anywhere, blank lines before the header, CRLF on one line or all, trailing comment, no final newline)");
         let st = par_range(&label, n, &deadline, |idx, st| {
             let body = sp.unrank(k, idx);
-            let prog = Program { header: vec!["A".into(), "Q".into()], body };
+            let body = rename(&body, nq);
+            let prog = Program { header: vec![na.into(), nq.into()], body };
             if prog.declares().len() > 1 {
                 return; // the same name declared twice is not a valid program
             }
@@ -118,8 +147,8 @@ pub fn run(tier: Tier, seed: u64) -> i32 {
                 // through a .dig document: lines are relative to the test's own source text
                 if mism.is_none() && (lay.len() <= 1 || li % 7 == 0) {
                     let pins = vec![
-                        digxml::Pin::new(digxml::PinKind::In, "A").bits("8"),
-                        digxml::Pin::new(digxml::PinKind::Out, "Q").bits("8"),
+                        digxml::Pin::new(digxml::PinKind::In, na).bits("8"),
+                        digxml::Pin::new(digxml::PinKind::Out, nq).bits("8"),
                         digxml::Pin::new(digxml::PinKind::Out, "i").bits("8"),
                     ];
                     let doc = digxml::render(&pins, &[digxml::TestDesc { label: Some("t".into()), source: laid.text.clone() }]);
@@ -159,6 +188,7 @@ pub fn run(tier: Tier, seed: u64) -> i32 {
             }
         });
         total.merge(st);
+    }
     }
     let meta = CheckMeta {
         id: "C19",
